@@ -309,6 +309,14 @@ func (ck *Check) optionalOrigin(ctx *Ctx, v ssa.Value) (string, []*Formula, bool
 			if isBool(last) {
 				okT := &Term{Kind: "extract", Name: fmt.Sprint(tup.Len() - 1), Args: []*Term{ctx.Term(src)}}
 				guards = append(guards, Atom(okT))
+				// the ok result as the path conditions spell it (a small helper's ok is read through its returns)
+				if refs := src.Referrers(); refs != nil {
+					for _, r := range *refs {
+						if ex, isEx := r.(*ssa.Extract); isEx && ex.Index == tup.Len()-1 {
+							guards = append(guards, ctx.Formula(ex))
+						}
+					}
+				}
 				return "result of comma-ok call " + calleeName(src), guards, true
 			}
 		case *ssa.Lookup:
